@@ -17,12 +17,19 @@
    import with `call`), `acc_i_<name>` (with `inline`) and a reader `acc_r_<name>` (loads an i64
    through the import's address).
 
-   Output: per op `ok` or `E:<error>`; the history stops at the first error.  After each
-   successful link: `res=[n:a,...]` (resolver calls that returned an address, in order) and for every
-   module linked so far `m<k>{<kind><n>=<addr>[/<value>] ...}` for its import/export/forward
-   items in item order, where <addr> is `null`, `M<k>.<idx>` (address of the definition item idx of
-   module k) or `X<a>`, and <value> is what calling/reading through the import yields (the
-   accessor is entered through its thunk, i.e. through the interface chosen for the link). */
+   iface `n` = MIR_link (ctx, NULL, resolver): imports are bound, the modules stay queued.
+
+   Output: per op `ok` or `E:<error>`.  An error raised while a module is being BUILT ends the
+   history (the context cannot be used through the public API any more: curr_func dangles); an error
+   raised by MIR_load_module or MIR_link does not: the error function longjmps back and the history
+   CONTINUES in the same context.  After each link: `res=[n:a,...]` (resolver calls that returned an
+   address, in order; also after a failed link) and, when the link completed, for every module
+   whose interface has been set so far `m<k>{<kind><n>=<addr>[/<value>] ...}` for its
+   import/export/forward items in item order, where <addr> is `null`, `M<k>.<idx>` (address of the
+   definition item idx of module k) or `X<a>`, and <value> is what calling/reading through the
+   import yields (the accessor is entered through its thunk, i.e. through the interface chosen for
+   the link; `E:<error>` when the call raises one).  After a NULL-interface link the still queued
+   modules are printed as `p<k>{...}` (addresses only). */
 #include <stdio.h>
 #include <stdlib.h>
 #include <string.h>
@@ -35,11 +42,12 @@
 #define MAXMOD 64
 #define MAXN 8
 
-static jmp_buf err_jmp;
+static jmp_buf err_jmp, call_jmp;
+static volatile int in_call; /* an accessor is running: errors go back to call_acc */
 static int err_code;
 static void MIR_NO_RETURN err_func (MIR_error_type_t t, const char *fmt, ...) {
   err_code = (int) t;
-  longjmp (err_jmp, 1);
+  longjmp (in_call ? call_jmp : err_jmp, 1);
 }
 
 static const char *err_name (int e) {
@@ -85,6 +93,8 @@ static void *resolver (const char *name) {
 struct mod {
   MIR_module_t m;
   int nspec;                 /* number of items that come from the declarations */
+  int state;                 /* 0 = not loaded (load failed), 1 = loaded and queued, 2 = interface set */
+  int nulled;                /* went through a NULL-interface link while queued */
   MIR_item_t imp[MAXN];      /* import item per name */
   MIR_item_t acc_c[MAXN], acc_i[MAXN], acc_r[MAXN];
 };
@@ -183,7 +193,9 @@ static void build_module (MIR_context_t ctx, int k, char *decls) {
 }
 
 /* what an address is: 0 unknown, 1 null, 2 function definition, 3 data definition, 4 external */
+static int ident_mod; /* module of the definition found by identify */
 static int identify (void *addr, char *out) {
+  ident_mod = -1;
   if (addr == NULL) {
     strcpy (out, "null");
     return 1;
@@ -199,6 +211,7 @@ static int identify (void *addr, char *out) {
          it = DLIST_NEXT (MIR_item_t, it), idx++)
       if ((it->item_type == MIR_func_item || it->item_type == MIR_data_item) && it->addr == addr) {
         sprintf (out, "M%d.%d", k, idx);
+        ident_mod = k;
         return it->item_type == MIR_func_item ? 2 : 3;
       }
   }
@@ -206,12 +219,34 @@ static int identify (void *addr, char *out) {
   return 0;
 }
 
-static void print_bindings (void) {
+/* calls an accessor; an error raised underneath (e.g. "undefined call interface" of a function whose
+   module was never linked) comes back through call_jmp */
+static int call_acc (MIR_item_t acc, long *v) {
+  if (setjmp (call_jmp)) {
+    in_call = 0;
+    return 0;
+  }
+  in_call = 1;
+  *v = (long) ((int64_t (*) (void)) acc->addr) ();
+  in_call = 0;
+  return 1;
+}
+
+static void val_str (MIR_item_t acc, char *out) {
+  long v;
+  if (call_acc (acc, &v))
+    sprintf (out, "%ld", v);
+  else
+    sprintf (out, "E:%s", err_name (err_code));
+}
+
+static void print_bindings (int want_state) {
   char tag[64];
   for (int k = 0; k < nmods; k++) {
     struct mod *md = &mods[k];
     int idx = 0;
-    printf (" m%d{", k);
+    if (md->state != want_state) continue;
+    printf (" %c%d{", want_state == 2 ? 'm' : 'p', k);
     int first = 1;
     for (MIR_item_t it = DLIST_HEAD (MIR_item_t, md->m->items); it != NULL && idx < md->nspec;
          it = DLIST_NEXT (MIR_item_t, it), idx++) {
@@ -231,105 +266,144 @@ static void print_bindings (void) {
       int what = identify (it->addr, tag);
       printf ("%s%c%s=%s", first ? "" : " ", kc, name + 1, tag);
       first = 0;
-      if (kc == 'i') {
+      if (kc == 'i' && want_state == 2) {
         int n = atoi (name + 1);
-        if ((what == 2 || what == 4) && md->acc_c[n] != NULL) {
-          long v1 = (long) ((int64_t (*) (void)) md->acc_c[n]->addr) ();
-          long v2 = (long) ((int64_t (*) (void)) md->acc_i[n]->addr) ();
-          if (v1 == v2)
-            printf ("/%ld", v1);
+        if (what == 2 && mods[ident_mod].state != 2) {
+          /* a function of a module whose load was rejected: its thunk leads to undefined_interface
+             with a garbage context argument; not called */
+          printf ("/dead");
+        } else if ((what == 2 || what == 4) && md->nulled) {
+          /* the module went through a NULL-interface link: calls of small functions were inlined
+             THEN, with the definition bound then; not looked at (see design/C13.md) */
+        } else if ((what == 2 || what == 4) && md->acc_c[n] != NULL) {
+          char v1[48], v2[48];
+          val_str (md->acc_c[n], v1);
+          val_str (md->acc_i[n], v2);
+          if (strcmp (v1, v2) == 0)
+            printf ("/%s", v1);
           else
-            printf ("/%ld~%ld", v1, v2); /* call and inline disagree */
+            printf ("/%s~%s", v1, v2); /* call and inline disagree */
+        } else if (what == 3 && md->acc_r[n] != NULL) {
+          char v1[48];
+          val_str (md->acc_r[n], v1);
+          printf ("/%s", v1);
         }
-        else if (what == 3 && md->acc_r[n] != NULL)
-          printf ("/%ld", (long) ((int64_t (*) (void)) md->acc_r[n]->addr) ());
       }
     }
     printf ("}");
   }
 }
 
+static MIR_context_t ctx;
+static int gen_inited;
+static int stop_at_rejection; /* C13_MODE contains 's': a rejected load ends the history */
+static volatile int phase; /* 1 = building a module, 2 = MIR_load_module, 3 = MIR_link */
+
+/* returns 0 when the history has to end */
+static int do_op (char *op) {
+  if (setjmp (err_jmp)) {
+    printf ("E:%s", err_name (err_code));
+    if (phase == 3) printf (" res=[%s]", res_log);
+    return phase != 1 && !(phase == 2 && stop_at_rejection);
+  }
+  switch (op[0]) {
+  case 'L': {
+    if (nmods >= MAXMOD) {
+      printf ("toomany");
+      return 0;
+    }
+    int k = nmods;
+    nmods = k + 1;
+    phase = 1;
+    build_module (ctx, k, op + 1);
+    phase = 2;
+    MIR_load_module (ctx, mods[k].m);
+    mods[k].state = 1;
+    printf ("ok");
+    break;
+  }
+  case 'X': {
+    int n = 0, a = 0;
+    char name[32];
+    sscanf (op + 1, "%d %d", &n, &a);
+    nm (name, n);
+    MIR_load_external (ctx, name, ext_addr (a));
+    printf ("ok");
+    break;
+  }
+  case 'R': {
+    MIR_set_func_redef_permission (ctx, atoi (op + 1));
+    printf ("ok");
+    break;
+  }
+  case 'K': {
+    unsigned mask = 0;
+    char iface = 'i';
+    sscanf (op + 1, "%u %c", &mask, &iface);
+    res_mask = mask;
+    res_log[0] = 0;
+    if (iface != 'i' && iface != 'n' && !gen_inited) {
+      MIR_gen_init (ctx);
+      gen_inited = 1;
+    }
+    phase = 3;
+    MIR_link (ctx,
+              iface == 'g'   ? MIR_set_gen_interface
+              : iface == 'l' ? MIR_set_lazy_gen_interface
+              : iface == 'n' ? NULL
+                             : MIR_set_interp_interface,
+              resolver);
+    phase = 0;
+    printf ("ok res=[%s]", res_log);
+    for (int k = 0; k < nmods; k++)
+      if (mods[k].state == 1) {
+        if (iface == 'n')
+          mods[k].nulled = 1;
+        else
+          mods[k].state = 2;
+      }
+    if (iface == 'n')
+      print_bindings (1);
+    else
+      print_bindings (2);
+    break;
+  }
+  default: printf ("badop"); break;
+  }
+  return 1;
+}
+
 static void run_history (char *line) {
-  MIR_context_t ctx = MIR_init ();
-  volatile int gen_inited = 0;
-  volatile int failed = 0;
+  ctx = MIR_init ();
+  gen_inited = 0;
   nmods = 0;
+  phase = 0;
+  in_call = 0;
+  memset (mods, 0, sizeof (mods));
   MIR_set_error_func (ctx, err_func);
   char *save, *op;
-  int first = 1;
-  for (op = strtok_r (line, ";", &save); op != NULL; op = strtok_r (NULL, ";", &save)) {
+  int first = 1, alive = 1;
+  for (op = strtok_r (line, ";", &save); op != NULL && alive; op = strtok_r (NULL, ";", &save)) {
     while (*op == ' ' || *op == '\t') op++;
     if (*op == 0 || *op == '\n') continue;
     printf ("%s", first ? "" : " | ");
     first = 0;
-    if (setjmp (err_jmp)) {
-      printf ("E:%s", err_name (err_code));
-      failed = 1;
-      break;
-    }
-    switch (op[0]) {
-    case 'L': {
-      if (nmods >= MAXMOD) {
-        printf ("toomany");
-        break;
-      }
-      int k = nmods;
-      build_module (ctx, k, op + 1);
-      nmods = k + 1; /* only counted once it exists */
-      MIR_load_module (ctx, mods[k].m);
-      printf ("ok");
-      break;
-    }
-    case 'X': {
-      int n = 0, a = 0;
-      char name[32];
-      sscanf (op + 1, "%d %d", &n, &a);
-      nm (name, n);
-      MIR_load_external (ctx, name, ext_addr (a));
-      printf ("ok");
-      break;
-    }
-    case 'R': {
-      MIR_set_func_redef_permission (ctx, atoi (op + 1));
-      printf ("ok");
-      break;
-    }
-    case 'K': {
-      unsigned mask = 0;
-      char iface = 'i';
-      sscanf (op + 1, "%u %c", &mask, &iface);
-      res_mask = mask;
-      res_log[0] = 0;
-      if (iface != 'i' && !gen_inited) {
-        MIR_gen_init (ctx);
-        gen_inited = 1;
-      }
-      MIR_link (ctx,
-                iface == 'g'   ? MIR_set_gen_interface
-                : iface == 'l' ? MIR_set_lazy_gen_interface
-                               : MIR_set_interp_interface,
-                resolver);
-      printf ("ok res=[%s]", res_log);
-      print_bindings ();
-      break;
-    }
-    default: printf ("badop"); break;
-    }
+    alive = do_op (op);
   }
   printf ("\n");
   fflush (stdout);
   /* tear the context down; after an error module creation may be half done, in which case
      MIR_finish frees nearly everything and then reports the unfinished module/function: that
      last error is swallowed here */
-  if (failed && setjmp (err_jmp) == 0)
+  if (!alive && setjmp (err_jmp) == 0)
     MIR_finish_module (ctx); /* a half-built module: MIR_finish would free it and then read its name */
   if (setjmp (err_jmp) == 0) {
-    if (failed) /* MIR_link marks functions with item->data = 1 and an error leaves the marks behind;
-                   MIR_finish would pass them to free */
-      for (MIR_module_t m = DLIST_HEAD (MIR_module_t, *MIR_get_module_list (ctx)); m != NULL;
-           m = DLIST_NEXT (MIR_module_t, m))
-        for (MIR_item_t it = DLIST_HEAD (MIR_item_t, m->items); it != NULL; it = DLIST_NEXT (MIR_item_t, it))
-          if (it->data == (void *) 1) it->data = NULL;
+    /* MIR_link marks functions with item->data = 1 and an error leaves the marks behind;
+       MIR_finish would pass them to free */
+    for (MIR_module_t m = DLIST_HEAD (MIR_module_t, *MIR_get_module_list (ctx)); m != NULL;
+         m = DLIST_NEXT (MIR_module_t, m))
+      for (MIR_item_t it = DLIST_HEAD (MIR_item_t, m->items); it != NULL; it = DLIST_NEXT (MIR_item_t, it))
+        if (it->data == (void *) 1) it->data = NULL;
     if (gen_inited) {
       gen_inited = 0;
       MIR_gen_finish (ctx);
@@ -340,6 +414,8 @@ static void run_history (char *line) {
 
 int main (void) {
   static char line[1 << 16];
+  const char *mode = getenv ("C13_MODE");
+  stop_at_rejection = mode != NULL && strchr (mode, 's') != NULL;
   while (fgets (line, sizeof (line), stdin) != NULL) {
     size_t l = strlen (line);
     if (l > 0 && line[l - 1] == '\n') line[l - 1] = 0;
